@@ -160,6 +160,91 @@ let () =
          (String.concat "," (List.map string_of_int !conflicts))
          (match !bad_op with Some a -> string_of_int a | None -> "-"))
   end;
+  (* ---- when the checker rejects: search the shape machine for a concrete static path on which
+     it crashes (calls are summarised by an immediate return; both branch directions, and
+     faults with none/all operands popped, are explored) ---- *)
+  if not ok then begin
+    let codef a = let a = int_of_nat a in if a < n then dec.(a) else None in
+    let handf a = match handler_of (int_of_nat a) with Some h -> Some (nat_of_int h) | None -> None in
+    let npf g = nat_of_int (np_of (int_of_nat g)) in
+    let isentf g = Hashtbl.mem fmeta (int_of_nat g) in
+    let crash_name c = match c with BadJump -> "BadJump" | Underflow -> "Underflow" | BadRead -> "BadRead"
+                                  | BadHeader -> "BadHeader" | RetPartial -> "RetPartial" | RetDepth -> "RetDepth"
+                                  | BadClear -> "BadClear" | BadFuncAddr -> "BadFuncAddr" | BadInstr -> "BadInstr" in
+    let rec take k l = if k <= 0 then [] else match l with [] -> [] | x :: t -> x :: take (k - 1) t in
+    let found = ref None in
+    let budget = ref 400000 in
+    let seen = Hashtbl.create 4096 in
+    let starts =
+      (init, "toplevel") ::
+      List.map (fun (a, np, _, ffi, name) ->
+          let hdr = [SPP O; SLine; SGp; SFP O; SIP (O, O)] in
+          let rec rep k = if k = 0 then [] else SVal :: rep (k - 1) in
+          ({ ip = nat_of_int a; stk = hdr @ rep np; p = nat_of_int 5; f = nat_of_int 5; cur = nat_of_int a },
+           Printf.sprintf "%s@%d" name a)) d.funcs in
+    let rec explore (s : st) (path : (int * int) list) (origin : string) =
+      if !found <> None || !budget <= 0 then () else begin
+        decr budget;
+        let ipi = int_of_nat s.ip and len = List.length s.stk in
+        let key = (ipi, len, int_of_nat s.f, int_of_nat s.p) in
+        if Hashtbl.mem seen key then () else begin
+          Hashtbl.add seen key ();
+          let path = (ipi, len - 1) :: path in
+          let try_obs ip' len' =
+            if !found = None && len' >= 0 then
+              match step codef handf npf isentf entry s (nat_of_int ip') (nat_of_int len') with
+              | Next s' -> explore s' path origin
+              | Crash c -> found := Some (origin, crash_name c, List.rev path)
+              | _ -> () in
+          (* a crash that does not depend on the observation *)
+          (match step codef handf npf isentf entry s (nat_of_int (ipi + 1)) (nat_of_int len) with
+           | Crash c -> found := Some (origin, crash_name c, List.rev path)
+           | _ -> ());
+          if !found = None then
+            match (if ipi < n then dec.(ipi) else None) with
+            | None -> ()
+            | Some i ->
+              (match i with
+               | AOp (_, pops, pushes) ->
+                 let pops = int_of_nat pops and pushes = int_of_nat pushes in
+                 try_obs (ipi + 1) (len - pops + pushes);
+                 (match handler_of ipi with
+                  | Some h when h <> ipi + 1 -> try_obs h len; if pops > 0 then try_obs h (len - pops)
+                  | _ -> ())
+               | AJump t -> try_obs (int_of_nat t) len
+               | AJumpz t -> try_obs (ipi + 1) (len - 1); try_obs (int_of_nat t) (len - 1)
+               | AMark _ -> try_obs (ipi + 1) (len + 5)
+               | ACall ->
+                 let fi = int_of_nat s.f and pi = int_of_nat s.p in
+                 if fi <> pi && fi >= 5 && len >= fi then begin
+                   (* summarise the callee: pop header + arguments, push the result, go to the return label *)
+                   match List.nth_opt s.stk (fi - 1), List.nth_opt s.stk (fi - 2), List.nth_opt s.stk (fi - 5) with
+                   | Some (SIP (r, _)), Some (SFP f0), Some (SPP _) ->
+                     explore { ip = r; stk = take (fi - 5) s.stk @ [SVal]; p = s.p; f = f0; cur = s.cur } path origin
+                   | _ -> found := Some (origin, "BadHeader(call-summary)", List.rev path)
+                 end;
+                 (match handler_of ipi with Some h -> try_obs h (len - 1) | None -> ())
+               | ARet _ ->
+                 (match List.nth_opt s.stk (int_of_nat s.p - 1) with
+                  | Some (SIP (r, _)) -> try_obs (int_of_nat r) (int_of_nat s.p - 5 + 1)
+                  | _ -> ())
+               | ARethrow -> ()
+               | AClear k -> try_obs (ipi + 1) (int_of_nat s.p + int_of_nat k)
+               | ASlide (q, _) -> try_obs (ipi + 1) (len - int_of_nat q)
+               | AMkFunc _ -> try_obs (ipi + 1) len
+               | APushParam -> try_obs (ipi + 1) (len + np_of entry_addr)
+               | AFfi r -> try_obs (int_of_nat r) (int_of_nat s.p + 1)
+               | AHalt | AUnhandled | ABad -> ())
+        end
+      end in
+    List.iter (fun (s0, origin) -> if !found = None then explore s0 [] origin) starts;
+    (match !found with
+     | Some (origin, kind, path) ->
+       let tail = let l = List.length path in if l > 40 then List.filteri (fun i _ -> i >= l - 40) path else path in
+       Printf.printf "WITNESS crash=%s from=%s steps=%d path(ip:sp)=%s\n" kind origin (List.length path)
+         (String.concat " " (List.map (fun (a, sp) -> Printf.sprintf "%d:%d" a sp) tail))
+     | None -> Printf.printf "WITNESS none (searched %d states)\n" (400000 - !budget))
+  end;
   (* per-function maximum certified depth (frame base + depth), for the stack-bound checks *)
   let maxd = Hashtbl.create 64 in
   Array.iteri (fun _ c -> match c with
